@@ -127,6 +127,8 @@ def generate(seed, tier, index):
     ndev = rng.choice([1, 1, 2, 3])
     specs = [G.gen_device(rng, f"DEV{i}", kinds=KINDS, spicy=rng.random() < 0.6, max_depth=3, all_min_max=rng.random() < 0.5)
              for i in range(ndev)]
+    if ndev >= 2 and rng.random() < 0.3:
+        specs[1] = G.clone_as_second_instance(specs[0], "DEV1")  # two instances of one driver class
     nclients = rng.choice([1, 1, 2])
     snoop = []
     if ndev >= 2 and rng.random() < 0.4:
